@@ -62,5 +62,52 @@ pub fn run() -> Result<u64, String> {
         }
         n += 1;
     }
+    // the repository's own decode vectors (src/message/tests/valid_avp.rs) must be accepted by the reference decoder
+    // under the strictest options, with the value the crate's tests expect implicitly checked by the suite itself;
+    // an unreadable file is not an error (the vectors are a convenience, not a dependency)
+    let strict = Opts { reserved: true, version: true, unused: true };
+    for v in repo_vectors() {
+        match decode_message(&v, strict) {
+            Ok((SMsg::Control { .. }, c)) if c == v.len() => n += 1,
+            other => return Err(format!("reference decoder does not accept the repository test vector {}: {:?}", crate::cx::hex(&v), other)),
+        }
+    }
     Ok(n)
+}
+
+/// byte vectors of the form `vec![0x13, 0x20, ...] =>` found in the repository's decode tests
+pub fn repo_vectors() -> Vec<Vec<u8>> {
+    let mut out = Vec::new();
+    let text = match std::fs::read_to_string("/repo/src/message/tests/valid_avp.rs") {
+        Ok(t) => t,
+        Err(_) => return out,
+    };
+    let mut rest = text.as_str();
+    while let Some(i) = rest.find("vec![") {
+        rest = &rest[i + 5..];
+        let end = match rest.find("] =>") {
+            Some(e) => e,
+            None => break,
+        };
+        let body = &rest[..end];
+        if body.contains("vec![") {
+            continue; // not a flat byte vector
+        }
+        let mut v = Vec::new();
+        let mut ok = true;
+        for line in body.lines() {
+            let code = line.split("//").next().unwrap_or("");
+            for tok in code.split(|c: char| c == ',' || c.is_whitespace()).filter(|t| !t.is_empty()) {
+                match tok.strip_prefix("0x").and_then(|h| u8::from_str_radix(h, 16).ok()) {
+                    Some(b) => v.push(b),
+                    None => ok = false,
+                }
+            }
+        }
+        if ok && v.len() >= 12 {
+            out.push(v);
+        }
+        rest = &rest[end..];
+    }
+    out
 }
